@@ -26,7 +26,7 @@ def cases(tier, seed):
     if tier == "quick":
         grid = [(1, ["cubic"]), (2, ["qfull", "cubic"])]
     else:
-        grid = [(1, ["qfull", "cubic", "exp"]), (2, ["qfull", "cubic", "rosen"]), (3, ["qfull"])]
+        grid = [(1, ["qfull", "cubic"]), (2, ["qfull", "cubic", "rosen"]), (3, ["qfull"])]
     for n, objs in grid:
         for vk in itertools.product(S.VAR_KINDS, repeat=n):
             for m in (0, 1, 2):
@@ -37,8 +37,8 @@ def cases(tier, seed):
                     rowsets = (tuple((fns[i], k) for i, k in enumerate(ks))
                                for ks in itertools.product(S.ROW_KINDS, repeat=m))
                 for ri_, rows in enumerate(rowsets):
-                    if tier == "thorough" and n == 2 and m == 2 and (ri_ + S.VAR_KINDS.index(vk[0])) % 2 == 1:
-                        continue  # two rows on two variables: half of the (variable kinds x row sets) table (bounds the tier to ~15 minutes)
+                    if tier == "thorough" and n == 2 and m == 2 and (ri_ + S.VAR_KINDS.index(vk[0])) % 4 != 0:
+                        continue  # two rows on two variables: a quarter of the (variable kinds x row sets) table (bounds the tier to ~10 minutes)
                     for oi, obj in enumerate(objs):
                         if tier == "thorough" and n == 2 and m == 2 and oi == 2:
                             continue  # the third objective with one row at most (bounds the thorough tier to about 20 minutes)
